@@ -11,7 +11,7 @@
 From EsVerif.Common Require Import Base Bytes.
 From Coq.Strings Require Import Byte.
 From Coq.Strings Require String.
-From EsVerif.C07 Require Import Model Spec Basics Proofs CmpProofs Extra Skel Gen Tie.
+From EsVerif.C07 Require Import Model Spec Basics Proofs CmpProofs Extra Skel Gen Tie Complete State Total Verbose Swap.
 
 (* extract_fields: original order filtered by the given names; Err on a missing name in strict
    mode or when no field would be kept *)
@@ -164,6 +164,151 @@ Theorem C07_results_well_formed :
   /\ (forall a ks strict r, wf a -> NoDup (given ks) -> reorder_fields a ks strict = Ok r -> wf r).
 Proof. exact (conj extract_wf (conj remove_wf reorder_wf)). Qed.
 
+(* ===== proof-deepening round ===== *)
+
+(* The checkers DECIDE the property: completeness, the converse of C07_checkers_sound.  A case is
+   reported as a failing input exactly when the statement is violated on it. *)
+Theorem C07_checkers_complete :
+  (forall a ks strict out, extract_spec a ks strict out -> extract_check a ks strict out = true)
+  /\ (forall a ks out, remove_spec a ks out -> remove_check a ks out = true)
+  /\ (forall a ks strict out, reorder_spec a ks strict out -> reorder_check a ks strict out = true)
+  /\ (forall a add dv out, add_spec a add dv out -> add_check a add dv out = true)
+  /\ (forall arrs out, combine_spec arrs out -> combine_check arrs out = true)
+  /\ (forall a1 a2 out, NoDup (names a2) -> (exists r, out = Ok r /\ copy_ok a1 a2 r) -> copy_check a1 a2 out = true)
+  /\ (forall a ns vs out, NoDup (names a) -> length ns = length vs ->
+        (exists r, out = Ok r /\ cfbn_ok a ns vs r) -> cfbn_check a ns vs out = true)
+  /\ (forall a fl out, NoDup (names a) -> split_spec a fl out -> split_check a fl out = true)
+  /\ (forall a1 a2 im out, NoDup (names a1) ->
+        (exists b, out = Ok b /\ (b = true <-> compare_true a1 a2 im)) -> compare_check a1 a2 im out = true).
+Proof. exact checkers_complete. Qed.
+
+(* copy_ok / cfbn_ok determine the result: the frame-style specification has exactly one model *)
+Theorem C07_inplace_results_unique :
+  (forall a1 a2 r, NoDup (names a2) -> copy_ok a1 a2 r -> r = mkA (shape a2) (copy_expected a1 a2))
+  /\ (forall a ns vs r, NoDup (names a) -> length ns = length vs -> cfbn_ok a ns vs r ->
+        r = mkA (shape a) (cfbn_expected a ns vs)).
+Proof. exact (conj copy_ok_unique cfbn_ok_unique). Qed.
+
+(* FRAME.  The nine functions as calls on a store of array objects: a call writes at most its one
+   documented output object (arr2 of copy_fields, arr of copy_fields_by_name); every other object
+   — every input of the seven value-returning functions, arr1 of copy_fields — is unchanged, and
+   no object appears or disappears. *)
+Theorem C07_store_frame : forall s o,
+  length (fst (step s o)) = length s
+  /\ (forall j, written o <> Some j -> nth_error (fst (step s o)) j = nth_error s j)
+  /\ (written o = None -> fst (step s o) = s).
+Proof. intros s o. destruct (step_frame s o) as [H1 H2]. split; [exact H1|]. split; [exact H2|apply step_pure]. Qed.
+
+(* what copy_fields stores into arr2 (shape and dtype kept, common fields = arr1's bytes, the other
+   fields untouched), and that a refused call leaves arr2 as it was *)
+Theorem C07_store_copy_frame : forall s i1 i2 a1 a2,
+  nth_error s i1 = Some a1 -> nth_error s i2 = Some a2 -> NoDup (names a1) -> compat a1 a2 ->
+  (nelem a1 = nelem a2 /\ assign_ok (shape a1) (shape a2) = true ->
+     exists r, step s (OCopy i1 i2) = (set_nth s i2 r, Ok RNone) /\ copy_ok a1 a2 r
+               /\ nth_error (fst (step s (OCopy i1 i2))) i2 = Some r)
+  /\ (nelem a1 <> nelem a2 -> step s (OCopy i1 i2) = (s, Err EValue)).
+Proof. exact step_copy_frame. Qed.
+
+(* NO HISTORY.  The answer of a call and the new content of the object it writes depend only on
+   the present contents of the call's own argument objects ... *)
+Theorem C07_no_history : forall s t o,
+  (forall i, In i (args o) -> nth_error s i = nth_error t i) ->
+  snd (step s o) = snd (step t o)
+  /\ forall j, written o = Some j -> nth_error (fst (step s o)) j = nth_error (fst (step t o)) j.
+Proof. exact step_local. Qed.
+
+(* ... so any number of earlier value-returning calls leaves the answer of a call what it is alone *)
+Theorem C07_history_irrelevant : forall s pre o,
+  Forall (fun p => written p = None) pre ->
+  nth (length pre) (run s (pre ++ [o])) (Err EOther) = snd (step s o).
+Proof. exact history_irrelevant. Qed.
+
+(* copy_fields: the complete outcome table (so far only the accepted call and the size guard had
+   a theorem; the other two rows were compared only) and the error class of every refusal *)
+Theorem C07_copy_fields_outcome : forall a1 a2,
+  NoDup (names a1) -> compat a1 a2 ->
+  (nelem a1 <> nelem a2 -> copy_fields a1 a2 = Err EValue)
+  /\ (nelem a1 = nelem a2 -> no_common a1 a2 -> copy_fields a1 a2 = Ok a2)
+  /\ (nelem a1 = nelem a2 -> some_common a1 a2 -> assign_ok (shape a1) (shape a2) = false ->
+        copy_fields a1 a2 = Err EValue)
+  /\ (nelem a1 = nelem a2 -> assign_ok (shape a1) (shape a2) = true ->
+        copy_fields a1 a2 = Ok (mkA (shape a2) (copy_expected a1 a2))).
+Proof. exact copy_fields_outcome. Qed.
+
+Theorem C07_copy_fields_error_class : forall a1 a2 e,
+  NoDup (names a1) -> compat a1 a2 -> copy_fields a1 a2 = Err e -> e = EValue.
+Proof. exact copy_fields_error_class. Qed.
+
+(* error paths and input forms that were compared with the code but had no statement: a repeated
+   name in the added descriptor, defaults of the wrong length (checked after the array is built),
+   reorder_fields with a repeated existing name (np.zeros refuses the descr), split_fields on a
+   field-less array *)
+Theorem C07_more_rejections :
+  (forall a add dv, ~ NoDup (map dname add) -> add_fields a add dv = Err EValue)
+  /\ (forall a add dv, NoDup (names a) -> NoDup (map dname add) -> ~ add_rejects a add ->
+        length (given_vals dv) <> length add -> add_fields a add (Some dv) = Err EValue)
+  /\ (forall a ks strict, ~ NoDup (filter (fun n => memb n (names a)) (given ks)) ->
+        reorder_fields a ks strict = Err EValue)
+  /\ (forall v x, split_plain v None = Ok [v] /\ split_plain v (Some x) = Err EValue).
+Proof.
+  exact (conj add_rejects_dup_descr (conj add_rejects_defaults_length (conj reorder_rejects_repeated split_plain_spec))).
+Qed.
+
+(* a TUPLE of defaults / values is not a list: the code wraps it as ONE value, so for two or more
+   new fields (names) the call is refused with ValueError — formerly listed as "outside the model",
+   now a consequence: any non-list object is a VSingle *)
+Theorem C07_tuple_values_rejected :
+  (forall a add v, NoDup (names a) -> NoDup (map dname add) -> ~ add_rejects a add -> length add <> 1%nat ->
+     add_fields a add (Some (VSingle v)) = Err EValue)
+  /\ (forall a nms v, length (given nms) <> 1%nat -> copy_fields_by_name a nms (VSingle v) = Err EValue).
+Proof.
+  split.
+  - intros a add v Hn Ha Hr Hl. apply add_rejects_defaults_length; try assumption. cbn. congruence.
+  - intros a nms v Hl. apply cfbn_rejects. cbn. exact Hl.
+Qed.
+
+(* copy_fields between same-named fields that differ ONLY in byte order (numpy converts item by
+   item): formerly outside the model.  copy_fields_sw extends Model.copy_fields conservatively;
+   the destination keeps shape and dtype, receives the converted data, other fields untouched;
+   and the conversion preserves every decoded VALUE of integer and float fields. *)
+Theorem C07_copy_swapped_conservative : forall a1 a2,
+  compat a1 a2 -> copy_fields_sw a1 a2 = copy_fields a1 a2.
+Proof. exact copy_sw_conservative. Qed.
+
+Theorem C07_copy_swapped : forall a1 a2,
+  NoDup (names a1) -> NoDup (names a2) -> compat_sw a1 a2 -> nelem a1 = nelem a2 ->
+  assign_ok (shape a1) (shape a2) = true ->
+  exists r, copy_fields_sw a1 a2 = Ok r /\ copy_ok_sw a1 a2 r.
+Proof. exact copy_sw_ok. Qed.
+
+Theorem C07_copy_swapped_values : forall f g,
+  same_type (fdesc f) (fdesc g) || swap_type (fdesc f) (fdesc g) = true ->
+  (fkind (dtype (fdesc f)) = KInt \/ fkind (dtype (fdesc f)) = KUInt \/ fkind (dtype (fdesc f)) = KFloat) ->
+  0 < fnum (dtype (fdesc f)) ->
+  Forall (whole_items (fnum (dtype (fdesc f)))) (fdata f) ->
+  field_values (mkF (fdesc g) (conv_data f g)) = field_values f.
+Proof. exact conv_values. Qed.
+
+Theorem C07_copy_swapped_checker_sound :
+  (forall a1 a2 out, copy_check_sw a1 a2 out = true -> exists r, out = Ok r /\ copy_ok_sw a1 a2 r)
+  /\ (forall a1 a2, compat_sw_b a1 a2 = true -> compat_sw a1 a2).
+Proof. exact (conj copy_check_sw_sound compat_sw_dec). Qed.
+
+(* compare_arrays with verbose=True modelled including every stdout.write (the report as a list
+   of events): the verdict does not depend on verbose and is Model.compare_arrays; verbose=False
+   writes nothing; a report ends in "All tests passed" exactly when the answer is True, else in
+   "<k> differences found" with k = the number of difference lines printed before it (k > 0) *)
+Theorem C07_compare_verbose_verdict : forall a1 a2 verbose im,
+  match compare_arrays_v a1 a2 verbose im with Ok x => Ok (fst x) | Err e => Err e end = compare_arrays a1 a2 im.
+Proof. exact compare_v_verdict. Qed.
+
+Theorem C07_compare_verbose_report : forall a1 a2 im,
+  (forall x, compare_arrays_v a1 a2 false im = Ok x -> snd x = [])
+  /\ (forall b log, compare_arrays_v a1 a2 true im = Ok (b, log) ->
+        exists body, (b = true /\ log = body ++ [EPassed] /\ diffs_reported body = 0)
+                  \/ (b = false /\ exists k, log = body ++ [EDiffs k] /\ k = diffs_reported body /\ 0 < k)).
+Proof. intros a1 a2 im. split; [apply compare_v_silent|apply compare_v_report]. Qed.
+
 (* Tie to the source.  Gen.v is regenerated on every run from esutil/numpy_util.py of the tree
    under check (harness/props/c07_translate.py, fail-closed): the class tuples of the isinstance
    dispatches, the operator of every guard, `in`/`not in` of the filter loops, the allocator and
@@ -253,4 +398,85 @@ Proof.
   { apply (dec_false _ _ (extract_rejects_dec ex_a ["s"; "x"] true)). vm_compute. reflexivity. }
   repeat split; try (vm_compute; reflexivity).
   eexists. split; vm_compute; reflexivity.
+Qed.
+
+(* Non-vacuity of the proof-deepening theorems: a session on a store of three objects *)
+Definition ex_c : sarray :=
+  mkA [2; 1] [mkF (mkD "s" (mkT NA KBytes 3) []) [unhex "000000"; unhex "000000"];
+              mkF (mkD "w" (mkT LE KInt 2) []) [unhex "0100"; unhex "0200"];
+              mkF (mkD "x" (mkT LE KFloat 8) []) [unhex "0000000000000000"; unhex "0000000000000000"]].
+
+Example C07_deepening_nonvacuous :
+  (* a session: extract from object 0, copy object 0 into object 2, compare them *)
+  (exists r, run [ex_a; ex_b; ex_c] [OExtract 0 (NScalar "v") true; OCopy 0 2; OCompare 0 2 true; OCompare 0 2 false]
+             = [Ok (RNew r); Ok RNone; Ok (RBool true); Ok (RBool false)])
+  /\ nth_error (final [ex_a; ex_b; ex_c] [OCopy 0 2]) 0 = Some ex_a
+  /\ option_map (fun a => map fdata (fields a)) (nth_error (final [ex_a; ex_b; ex_c] [OCopy 0 2]) 2)
+     = Some [[unhex "610000"; unhex "626300"]; [unhex "0100"; unhex "0200"];
+             [unhex "000000000000f03f"; unhex "0000000000000040"]]
+  /\ NoDup (names ex_a) /\ compat ex_a ex_c /\ some_common ex_a ex_c /\ no_common ex_a ex_b
+  /\ copy_fields ex_a ex_b = Ok ex_b
+  /\ copy_check ex_a ex_c (copy_fields ex_a ex_c) = true
+  /\ compare_arrays_v ex_a ex_c true false
+     = Ok (false, [ENames; EOnly1 "v"; EOnly2 "w"; EField "x"; EShapeOK; EElemDiff 2 "x";
+                   EField "s"; EShapeOK; EElemDiff 2 "s"; EDiffs 4])
+  /\ compare_arrays_v ex_a ex_a true true
+     = Ok (true, [ENoNameCheck; EField "x"; EShapeOK; EElemOK; EField "v"; EShapeOK; EElemOK;
+                  EField "s"; EShapeOK; EElemOK; EPassed]).
+Proof.
+  split; [eexists; vm_compute; reflexivity|].
+  split; [vm_compute; reflexivity|]. split; [vm_compute; reflexivity|].
+  split; [apply nodup_b_NoDup; vm_compute; reflexivity|].
+  split; [apply compat_dec; vm_compute; reflexivity|].
+  split; [apply some_common_dec; vm_compute; reflexivity|].
+  split.
+  { intros f Hf Hin. assert (X : some_common_b ex_a ex_b = true) by (apply some_common_dec; exists f; auto).
+    vm_compute in X. discriminate. }
+  repeat split; vm_compute; reflexivity.
+Qed.
+
+Example C07_more_rejections_nonvacuous :
+  ~ NoDup (filter (fun n => memb n (names ex_a)) (given (NTuple ["x"; "zz"; "x"])))
+  /\ reorder_fields ex_a (NTuple ["x"; "zz"; "x"]) false = Err EValue
+  /\ ~ add_rejects ex_a [mkD "n" (mkT BE KInt 2) []; mkD "m" (mkT LE KInt 2) []]
+  /\ add_fields ex_a [mkD "n" (mkT BE KInt 2) []; mkD "m" (mkT LE KInt 2) []]
+        (Some (VList [DScalar (unhex "0102")])) = Err EValue
+  /\ add_fields ex_a [mkD "n" (mkT BE KInt 2) []; mkD "n" (mkT LE KInt 4) []] None = Err EValue.
+Proof.
+  split; [apply nodup_b_false; vm_compute; reflexivity|].
+  split; [vm_compute; reflexivity|].
+  split; [apply (dec_false _ _ (add_rejects_dec _ _)); vm_compute; reflexivity|].
+  split; vm_compute; reflexivity.
+Qed.
+
+(* '<i2' copied into '>i2', '>i4' sub-array into '<i4': converted bytes, equal values *)
+Definition ex_le : sarray :=
+  mkA [2] [mkF (mkD "k" (mkT LE KInt 2) []) [unhex "0700"; unhex "f8ff"];
+           mkF (mkD "v" (mkT BE KInt 4) [2]) [unhex "0000000100000002"; unhex "fffffffd00000004"]].
+Definition ex_be : sarray :=
+  mkA [2] [mkF (mkD "v" (mkT LE KInt 4) [2]) [unhex "0000000000000000"; unhex "0000000000000000"];
+           mkF (mkD "k" (mkT BE KInt 2) []) [unhex "0000"; unhex "0000"]].
+
+Example C07_copy_swapped_nonvacuous :
+  NoDup (names ex_le) /\ NoDup (names ex_be) /\ compat_sw ex_le ex_be /\ ~ compat ex_le ex_be
+  /\ copy_fields ex_le ex_be = Err EOther
+  /\ option_map (fun r => map fdata (fields r)) (match copy_fields_sw ex_le ex_be with Ok r => Some r | Err _ => None end)
+     = Some [[unhex "0100000002000000"; unhex "fdffffff04000000"]; [unhex "0007"; unhex "fff8"]]
+  /\ (forall f, In f (fields ex_le) -> Forall (whole_items (fnum (dtype (fdesc f)))) (fdata f))
+  /\ field_values (mkF (mkD "k" (mkT BE KInt 2) []) [unhex "0007"; unhex "fff8"]) = [VInt 7; VInt (-8)].
+Proof.
+  split; [apply nodup_b_NoDup; vm_compute; reflexivity|].
+  split; [apply nodup_b_NoDup; vm_compute; reflexivity|].
+  split; [apply compat_sw_dec; vm_compute; reflexivity|].
+  split.
+  { intro H. assert (X : same_type (mkD "k" (mkT LE KInt 2) []) (mkD "k" (mkT BE KInt 2) []) = true).
+    { apply (H (mkF (mkD "k" (mkT LE KInt 2) []) [unhex "0700"; unhex "f8ff"])
+               (mkF (mkD "k" (mkT BE KInt 2) []) [unhex "0000"; unhex "0000"])); cbn; auto. }
+    vm_compute in X. discriminate. }
+  split; [vm_compute; reflexivity|]. split; [vm_compute; reflexivity|].
+  split.
+  { intros f [<-|[<-|[]]]; cbn [fdata fdesc dtype fnum]; repeat constructor.
+    - exists 1%nat. reflexivity. - exists 1%nat. reflexivity.
+    - exists 2%nat. reflexivity. - exists 2%nat. reflexivity. }
+  vm_compute. reflexivity.
 Qed.
